@@ -106,7 +106,18 @@ def create_load_table(
         # There is no table file to load. Calculate the table.
         force_load = False
 
-    if (create_table_file or force_create) and not force_load:
+    table = None
+    if not ((create_table_file or force_create) and not force_load):
+        if debug:
+            h_print(f"Loading LR table from '{table_file_name}'")
+        try:
+            table = load_table(table_file_name, grammar)
+        except ValueError:
+            # Incomplete or corrupted table file (e.g. an interrupted
+            # write). Calculate the table again.
+            table = None
+
+    if table is None:
         table = create_table(
             grammar,
             itemset_type,
@@ -119,10 +130,6 @@ def create_load_table(
         if table_file_name:
             with contextlib.suppress(PermissionError):
                 save_table(table_file_name, table)
-    else:
-        if debug:
-            h_print(f"Loading LR table from '{table_file_name}'")
-        table = load_table(table_file_name, grammar)
 
     return table
 
